@@ -54,6 +54,7 @@ type E2EScenario struct {
 	BlockMs int          `json:"blockMs"` // wall time per block (and the members' polling interval)
 	Members []MemberPlan `json:"members"`
 	Rerun   bool         `json:"rerun"` // run all members again on the finished chain
+	Goal    string       `json:"goal"`  // "all" (default): every run returns; "notary": stop once the Notary role is designated
 	Src     string       `json:"src"`
 	ID      int          `json:"id"`
 }
@@ -553,7 +554,7 @@ func (w *world) phase(budget int, schedule bool) (why string, lastChange int) {
 		if failed {
 			return "error", lastChange
 		}
-		if allDone {
+		if allDone || (schedule && w.sc.Goal == "notary" && w.notaryDesignated()) {
 			return "done", lastChange
 		}
 		if h-start >= budget {
@@ -587,6 +588,9 @@ func TestE2E(t *testing.T) {
 	}
 	if sc.Budget == 0 {
 		sc.Budget = 1500
+	}
+	if sc.Goal == "" {
+		sc.Goal = "all"
 	}
 	for len(sc.Members) < sc.N {
 		sc.Members = append(sc.Members, MemberPlan{})
@@ -635,11 +639,11 @@ func TestE2E(t *testing.T) {
 		}
 	}
 	h := int(w.net.BC.BlockHeight())
-	w.emit("end", chain.Rec{"why": why, "done": why == "done", "stag": h - lastChange, "absent": absent,
+	w.emit("end", chain.Rec{"why": why, "done": why == "done", "goal": sc.Goal, "stag": h - lastChange, "absent": absent,
 		"notaryOk": w.notaryDesignated(), "badBlocks": w.net.BadBlk, "wall": int(time.Since(t0).Seconds())}, true)
 	fmt.Printf("E2E n=%d src=%s why=%s height=%d stag=%d wall=%.1fs\n", sc.N, sc.Src, why, h, h-lastChange, time.Since(t0).Seconds())
 
-	if why == "done" && sc.Rerun {
+	if why == "done" && sc.Rerun && sc.Goal == "all" {
 		for _, m := range w.members {
 			m.state, m.runs, m.sent, m.rej, m.errText = "off", 0, map[string]int{}, map[string]int{}, ""
 		}
